@@ -208,7 +208,7 @@ def run(R):
             for v in vals:
                 if len(v) == 2 and v[0] == "\\":
                     wpairs[ch] = v[1]
-        R.floor("C14-R2", "escape pairs of the writer", len(wpairs), 5)
+        R.floor("C14-R2", "escape pairs of the writer", len(wpairs), 4)
         for ch, e in sorted(wpairs.items()):
             back = rt.get(e, [])
             ok = ch in back
